@@ -225,6 +225,7 @@ def run(ctx: Ctx) -> None:
             els = "".join(g(rng, i) for i in range(1, k + 1))
             lines.append(f"045  I --- 04:029390 --:------ 01:145038 {code} {k * n:03d} {els}")
             lines.append(f"045  I --- 30:123456 --:------ 30:123456 {code} {k * n:03d} {els}")
+    lines.append("045  I --- 10:123456 13:123456 --:------ 0009 006 FA0000F900FF")       # the recorded finding's witness: an array sent to ANOTHER device
     # ONE packet object decoded again, decoded after its header / repr has been looked at, and a fresh object looked at first: the outcome (the payload,
     # or being refused) is the same each time -- nothing a packet memoises about itself changes what it decodes to
     from ramses_tx.message import Message  # noqa: PLC0415
